@@ -98,6 +98,18 @@ CHECKS = {
              "duplicate-free union of exponent rows; a second alignment changes nothing.",
         note="Trusted: Coq kernel+VM, MathComp/SsrMultinomials; translator clean_tr.py. 'Arguments never modified' is "
              "checked by byte snapshots on /repo (and belongs to C17). Integer coefficients; dtype promotion is C12's subject."),
+    "C06": dict(
+        technique="Coq proof: derivative refines SsrMultinomials mderiv (for every option record), hence linearity, "
+                  "product rule, Schwarz via mderivD/mderivM/mderiv_comm; gradient via a proved stacking lemma; "
+                  "vm_compute correspondence under all 16 retain/sort settings",
+        text="Theorems (Props/P_C06.v), for EVERY option record o: derivative with respect to any list of the "
+             "polynomial's indeterminates is well-formed, keeps the shape and each element is the iterated formal "
+             "partial derivative (mderiv); an unknown name is rejected; mixed partials commute; derivative of a sum / "
+             "product obeys linearity / the product rule (with broadcasting); gradient has shape (D,)+p.shape and holds "
+             "the first partials in indeterminate order.",
+        note="Trusted: Coq kernel+VM, MathComp/SsrMultinomials. Partial: hessian is modelled and run against /repo "
+             "(shape (D,D)+p.shape and values under all 16 settings) but has no theorem yet; designation by position or "
+             "by indeterminate polynomial is resolved by the harness to the name before the model is called. Integer coefficients."),
 }
 
 
